@@ -497,8 +497,13 @@ def run(res, tier, seed, proofs_ok):
                       {'input': {'deck': WITNESS_DEGENERATE, 'args': []}},
                       cls='degenerate_range_rejected', found_input=True)
 
+    import time
+    t0 = time.time()
     direct_ties(res, rng, quick)
+    t1 = time.time()
     deck_stream(res, rng, quick)
+    res.extra['phase_seconds'] = {'direct_ties': round(t1 - t0, 1),
+                                  'deck_stream': round(time.time() - t1, 1)}
 
 
 def direct_ties(res, rng, quick):
@@ -888,8 +893,8 @@ def run_deck(deck, args):
 
 
 def deck_stream(res, rng, quick):
-    n_valid = 320 if quick else 3000
-    n_broken = 80 if quick else 600
+    n_valid = 240 if quick else 3000
+    n_broken = 60 if quick else 600
     cases, metas = [], []
     n_points = n_checked = 0
     stats_total = {}
